@@ -99,6 +99,9 @@ class Contract:
                 # finite case split on a scalar parameter: the function is verified once per listed value
                 for k, v in kw.items():
                     self.cases[k] = ast.literal_eval(v)
+            elif f == "attr_cases":
+                for k, v in kw.items():
+                    self.cases["self." + k] = ast.literal_eval(v)
             elif f == "unroll":
                 for a in args:
                     self.unroll[ast.literal_eval(a)] = True
